@@ -2,4 +2,5 @@
 let () =
   match Array.to_list Sys.argv with
   | _ :: "token" :: _ -> M_token.run ()
+  | _ :: "seq" :: scen :: trace :: _ -> M_seq.run scen trace
   | _ -> prerr_endline "usage: driver <token|...>"; exit 2
